@@ -28,7 +28,7 @@ ASSUMPTIONS = [
     "text is printable Latin-1 without control characters; '\\n' only inside comments",
 ]
 BUDGET = {"quick": (4, 1200), "thorough": (16, 20000)}
-KNOWN_KINDS = {}
+KNOWN_KINDS = {"C09/F20-label-comment-before-validation": "F20"}
 STRATA = [[m, s] for m in ("well", "rd", "simple", "passthrough") for s in ("valid", "one-invalid", "mixed")]
 REQUIRED_CLASSES = ["accepted", "rejected", "method:aspirate_well", "method:dispense_well", "method:reagent_distribution", "method:comment", "method:wash", "method:set_diti", "method:decontaminate", "method:aspirate", "method:dispense", "method:transfer", "method:distribute"]
 
@@ -47,6 +47,7 @@ F_FORCED = (txt(32), semi, too_long)
 F_POS = (st.integers(1, 9999), st.sampled_from([-1, -96, 1.5, 0.5, -2.5]), st.sampled_from([0, 2.0]))
 F_DIR = (st.sampled_from(["left_to_right", "right_to_left"]), st.sampled_from(["up", "", "LEFT_TO_RIGHT", "left to right", "0"]), st.nothing())
 F_COUNT = (st.integers(1, 12), st.nothing(), st.nothing())
+F_LABELTXT = (st.one_of(st.none(), st.just(""), txt(20), st.tuples(txt(10), txt(10)).map(lambda ab: ab[0] + "\n" + ab[1])), semi, st.nothing())
 F_TIP = (st.sampled_from(["any", 1, 5, 8, "T2", [1, 2], ["T8", 3]]), st.sampled_from([0, 9, [1, 9]]), st.nothing())
 
 
@@ -72,12 +73,13 @@ INVALID_LIST = {
     "position": [-1, -96, 1.5, 0.5, -2.5],
     "direction": ["up", "", "LEFT_TO_RIGHT", "left to right", "0"],
     "tip": [0, 9, [1, 9]],
+    "label": ["a;b", "line 1\nline;2", ";"],
 }
 VALID_BASE = {
     "rack_label": "Plate µ1", "src_rack_label": "Trough 1", "dst_rack_label": "Plate µ1", "name_src": "Trough 1", "name_dst": "Plate µ1",
     "rack_id": "BC-0042", "rack_type": "96 Well Microplate", "src_rack_id": "S-1", "src_rack_type": "Trough 100ml", "dst_rack_id": "D-2", "dst_rack_type": "96 Well Microplate",
     "liquid_class": "Water free dispense", "tube_id": "tube 7", "forced_rack_type": "forced type", "position": 17, "direction": "right_to_left", "tip": [2, "T5"],
-    "diti_reuse": 3, "multi_disp": 4,
+    "diti_reuse": 3, "multi_disp": 4, "label": "Step 7\nsecond line",
 }
 
 
@@ -88,10 +90,10 @@ def enumerate_cases(tier):
         "aspirate_well": ["rack_label", "position", "volume", "liquid_class", "tip", "rack_id", "tube_id", "rack_type", "forced_rack_type"],
         "dispense_well": ["rack_label", "position", "volume", "liquid_class", "tip", "rack_id", "tube_id", "rack_type", "forced_rack_type"],
         "reagent_distribution": ["src_rack_label", "dst_rack_label", "volume", "diti_reuse", "multi_disp", "liquid_class", "direction", "src_rack_id", "src_rack_type", "dst_rack_id", "dst_rack_type"],
-        "aspirate": ["name_src", "name_dst", "volume", "liquid_class", "tip", "rack_id", "tube_id", "rack_type", "forced_rack_type"],
-        "dispense": ["name_src", "name_dst", "volume", "liquid_class", "tip", "rack_id", "tube_id", "rack_type", "forced_rack_type"],
-        "transfer": ["name_src", "name_dst", "volume", "liquid_class", "tip", "rack_id", "tube_id", "rack_type", "forced_rack_type"],
-        "distribute": ["name_src", "name_dst", "volume", "diti_reuse", "multi_disp", "liquid_class", "direction", "src_rack_id", "src_rack_type", "dst_rack_id", "dst_rack_type"],
+        "aspirate": ["label", "name_src", "name_dst", "volume", "liquid_class", "tip", "rack_id", "tube_id", "rack_type", "forced_rack_type"],
+        "dispense": ["label", "name_src", "name_dst", "volume", "liquid_class", "tip", "rack_id", "tube_id", "rack_type", "forced_rack_type"],
+        "transfer": ["label", "name_src", "name_dst", "volume", "liquid_class", "tip", "rack_id", "tube_id", "rack_type", "forced_rack_type"],
+        "distribute": ["label", "name_src", "name_dst", "volume", "diti_reuse", "multi_disp", "liquid_class", "direction", "src_rack_id", "src_rack_type", "dst_rack_id", "dst_rack_type"],
     }
     for M in (950, 200):
         for method, names in groups.items():
@@ -192,9 +194,9 @@ def _case(draw, stratum):
         case["method"] = method
         M = case["M"] = min(M, 5000)
         if method == "distribute":
-            fields = {"name_src": F_LABEL, "name_dst": F_LABEL, "volume": f_rd_volume(M), "diti_reuse": F_COUNT, "multi_disp": F_COUNT, "liquid_class": F_LC, "direction": F_DIR, "src_rack_id": F_ID, "src_rack_type": F_ID, "dst_rack_id": F_ID, "dst_rack_type": F_ID}
+            fields = {"label": F_LABELTXT, "name_src": F_LABEL, "name_dst": F_LABEL, "volume": f_rd_volume(M), "diti_reuse": F_COUNT, "multi_disp": F_COUNT, "liquid_class": F_LC, "direction": F_DIR, "src_rack_id": F_ID, "src_rack_type": F_ID, "dst_rack_id": F_ID, "dst_rack_type": F_ID}
         else:
-            fields = {"name_src": F_LABEL, "name_dst": F_LABEL, "volume": f_volume(M), "liquid_class": F_LC, "tip": F_TIP, "rack_id": F_ID, "tube_id": F_TUBE, "rack_type": F_ID, "forced_rack_type": F_FORCED}
+            fields = {"label": F_LABELTXT, "name_src": F_LABEL, "name_dst": F_LABEL, "volume": f_volume(M), "liquid_class": F_LC, "tip": F_TIP, "rack_id": F_ID, "tube_id": F_TUBE, "rack_type": F_ID, "forced_rack_type": F_FORCED}
     names = sorted(fields)
     bad_field = draw(st.sampled_from([n for n in names if not fields[n][1].is_empty])) if stream == "one-invalid" else None
     args, classes = {}, {}
@@ -389,7 +391,7 @@ def check_case(case) -> Obs:
         if method == "aspirate" and classes["name_dst"] == "invalid" or method == "dispense" and classes["name_src"] == "invalid":
             classes["name_dst" if method == "aspirate" else "name_src"] = "valid"  # the other labware is not involved
             expect = _expect(classes)
-        if method != "distribute" and isinstance(args["volume"], (int, float)) and args["volume"] == 0 and expect == "reject":
+        if method != "distribute" and isinstance(args["volume"], (int, float)) and args["volume"] == 0 and expect == "reject" and classes.get("label") != "invalid":
             expect = "either"  # a zero volume emits no record, so there is nothing that could not be represented
         S = robotools.Trough(args["name_src"], 4, 2, min_volume=0, max_volume=1e9, initial_volumes=1e8)
         D = robotools.Labware(args["name_dst"], 8, 12, min_volume=0, max_volume=1e9, initial_volumes=1e3)
@@ -409,27 +411,32 @@ def check_case(case) -> Obs:
             excl = [p for p in range(d0, d1 + 1) if p not in in_range]
             wells = [f"{'ABCDEFGH'[(p - 1) % 8]}{(p - 1) // 8 + 1:02d}" for p in in_range]
             kw = {k: args[k] for k in ("diti_reuse", "multi_disp", "liquid_class", "direction", "src_rack_id", "src_rack_type", "dst_rack_id", "dst_rack_type")}
-            call = lambda: wl.distribute(S, 1, D, wells, volume=args["volume"], **kw)  # noqa: E731
+            call = lambda: wl.distribute(S, 1, D, wells, volume=args["volume"], label=args["label"] if args["label"] is not None else "", **kw)  # noqa: E731
 
             def checker(new):
-                _check_R(obs, new, M, args["name_src"], args["name_dst"], 5, 8, d0, d1, excl, args, "distribute")
+                new = _strip_label(obs, new, args["label"], "distribute")
+                if new is not None:
+                    _check_R(obs, new, M, args["name_src"], args["name_dst"], 5, 8, d0, d1, excl, args, "distribute")
 
         else:
             kw = {k: args[k] for k in ("liquid_class", "rack_id", "tube_id", "rack_type", "forced_rack_type")}
             kw["tip"] = _tip(args["tip"])
             v = args["volume"]
             if method == "aspirate":
-                call = lambda: wl.aspirate(S, ["B02", "A01"], v, **kw)  # noqa: E731
+                call = lambda: wl.aspirate(S, ["B02", "A01"], v, label=args["label"], **kw)  # noqa: E731
                 want = [("A", args["name_src"], 6), ("A", args["name_src"], 1)]
             elif method == "dispense":
-                call = lambda: wl.dispense(D, ["C02", "A12"], v, **kw)  # noqa: E731
+                call = lambda: wl.dispense(D, ["C02", "A12"], v, label=args["label"], **kw)  # noqa: E731
                 want = [("D", args["name_dst"], 11), ("D", args["name_dst"], 89)]
             else:
                 wl.auto_split = False
-                call = lambda: wl.transfer(S, "D01", D, "H12", v, wash_scheme="reuse", **kw)  # noqa: E731
+                call = lambda: wl.transfer(S, "D01", D, "H12", v, wash_scheme="reuse", label=args["label"], **kw)  # noqa: E731
                 want = [("A", args["name_src"], 4), ("D", args["name_dst"], 96)]
 
             def checker(new):
+                new = _strip_label(obs, new, args["label"], method)
+                if new is None:
+                    return
                 if isinstance(v, (int, float)) and v == 0:
                     if new:
                         obs.bad("C09/zero-volume-record", f"{method} with volume 0 appended {new}")
@@ -463,7 +470,13 @@ def check_case(case) -> Obs:
     if exc is not None:
         obs.cls("rejected", "exc:" + type(exc).__name__)
         if new:
-            obs.bad("C09/appended-on-reject", f"{method}({args}) raised {type(exc).__name__} but appended {new}")
+            label = args.get("label") if method in ("aspirate", "dispense", "transfer", "distribute") else None
+            label_lines = [] if not label or ";" in label else ["C;" + ln.strip() for ln in label.split("\n") if ln.strip()]
+            if label_lines and new == label_lines:
+                # open finding F20: the label's comment is written before the keyword arguments are validated
+                obs.bad("C09/F20-label-comment-before-validation", f"{method}(label={label!r}, ...) raised {type(exc).__name__} after appending the label comment {new}")
+            else:
+                obs.bad("C09/appended-on-reject", f"{method}({args}) raised {type(exc).__name__} but appended {new}")
         if expect == "accept":
             obs.bad("C09/valid-rejected", f"{method}({args}, prefill={before}, diti={case['diti']}, max_volume={M}) raised {type(exc).__name__}: {exc}")
         obs.nontrivial = n_invalid == 1 or (expect == "reject" and not classes)
@@ -479,6 +492,15 @@ def check_case(case) -> Obs:
     if expect:
         obs.cls("expect:" + expect)
     return obs
+
+
+def _strip_label(obs, new, label, method):
+    """The label of a high-level call is written as comment line(s) before the records of the call."""
+    want = [] if not label else ["C;" + ln.strip() for ln in label.split("\n") if ln.strip()]
+    if new[: len(want)] != want or any(r.startswith("C;") for r in new[len(want) :]):
+        obs.bad("C09/label-comment", f"{method}(label={label!r}) appended {new[:len(want) + 2]}, expected the comment lines {want} first")
+        return None
+    return new[len(want) :]
 
 
 def _check_R(obs, new, M, src, dst, s0, s1, d0, d1, excl, args, method):
